@@ -671,7 +671,9 @@ pub fn run_history(case: &Case, ctx: &Ctx, mode: Mode) -> (Outcome, Trajectory) 
 
         // ---- C12: counts equal the model after every operation ------------------------
         if (m_atoms, m_pairs, m_heap) != after {
-            if mode == Mode::C12 {
+            // C13 needs this as well: "fails exactly when completing it would exceed the cap" is
+            // meaningless if the counters themselves drift from what was allocated
+            if mode == Mode::C12 || mode == Mode::C13 {
                 let mut v = opclass(Violation::new(
                     "counts-match-model",
                     format!("step {step} {kind}: allocator reports (atoms,pairs,heap)={after:?}, reference model {:?} (before the call {before:?})", (m_atoms, m_pairs, m_heap)),
@@ -1245,7 +1247,10 @@ fn c13_program(prog: &crate::sx::Sx, env: &crate::sx::Sx, flags: u32, cap: &str,
     use clvmr::verif::Probe;
     let mut out = Outcome::default();
     let mut fp = Fp::default();
-    let reference = run_once(prog, env, flags, 0, &AllocCfg::unlimited(), entropy, 200_000);
+    // The peaks come from the run without ENABLE_GC: that run performs no value-preserving
+    // restores, so its counters are the plain sum of what was allocated (C04 says GC must not
+    // change them). The capped run uses the case's own flags.
+    let reference = run_once(prog, env, flags & !crate::prog::F_ENABLE_GC, 0, &AllocCfg::unlimited(), entropy, 200_000);
     out.evals += 1;
     if reference.setup_failed || reference.probes.dropped > 0 {
         return out;
